@@ -56,6 +56,10 @@ def run(prog, chk):
     limits_wiring(prog, chk)
     scope_var_limit(prog, chk)
     depth_test_unconditional(prog, chk)
+    from props import C06, C07
+    C06.config_single_writer(prog, chk)  # the limits in force are the configuration's: nothing but set_config replaces it (a saved copy restored later undoes a <config>)
+    if "server" in prog.features:
+        C07.server_stack(prog, chk)  # the depth limit is sized for the stack the transform runs on, in every front-end
 
 
 # ---------------------------------------------------------------------------
